@@ -534,6 +534,10 @@ func (b *BaseStore) Load(ctx context.Context, amount int) error {
 			var entry ifacelog.IPFSLogEntry
 			select {
 			case <-ctx.Done():
+				// keep receiving until the channel is closed: a fetch that is still running
+				// would otherwise block forever on its progress report, and Load with it
+				for range progress {
+				}
 				return
 			case entry = <-progress:
 				if entry == nil {
